@@ -157,8 +157,9 @@ impl Axecutor {
 
         let (quotient, remainder) = (dst_val / src_val, dst_val % src_val);
 
-        // #DE: the quotient does not fit into the destination
-        if quotient > u64::MAX as u128 {
+        // #DE: the quotient does not fit into the destination (exactly when the high half of the
+        // dividend is not below the divisor)
+        if (dst_val >> 64) >= src_val {
             return Err(AxError::from(format!(
                 "Divide error in Div_rm64: quotient {quotient:#x} does not fit into the destination"
             )));
